@@ -9,6 +9,7 @@ import sys
 from ..runner import Report, kernel_phase, run_driver, split_blocks
 
 PID = 'C14'
+GAP_THEOREMS = ['refill_add', 'refill_progress', 'refill_enough_gaps', 'batch_size_exact_gaps']
 THEOREMS = ['batch_stream', 'batch_stream_from_init', 'batch_size_exact', 'refill_enough', 'refill_inv', 'get_inv',
             'refill_aligned', 'init_inv']
 
@@ -95,6 +96,8 @@ def scripts(tier, seed):
 def check(tier, seed):
     rep = Report(PID, tier, seed)
     ok, hits = kernel_phase(rep, 'NdeVerif.Proofs.C14', 'NdeVerif.C14', THEOREMS)
+    ok2, _ = kernel_phase(rep, 'NdeVerif.Proofs.C14Gaps', 'NdeVerif.C14', GAP_THEOREMS, tag='C14gaps')
+    ok = ok and ok2
     if hits:
         print('forbidden tokens:', hits)
         rep.finish()
@@ -140,7 +143,7 @@ def check(tier, seed):
              'outputs + final cache + number of draws compared exactly',
         input_distribution=hist, driver_seconds=round(dt, 1))
     rep.samples = [dict(script=s, first_batches=out[:2]) for s, _, out, _ in reals[:4]]
-    rep.assumptions = ['batch_size_exact is proved for underlying generators whose draws are all non-empty (termination hypothesis); occasional empty draws are exercised by the correspondence only',
+    rep.assumptions = ['termination hypothesis of the size clause: among any m consecutive underlying draws at least one is non-empty (batch_size_exact_gaps; m = 1 is batch_size_exact); a generator that is empty forever makes the real while-loop diverge',
                        'tensor concatenation/slicing behave as list append/take/drop (torch, trusted; observed by the correspondence)']
     for f in failing[:3]:
         rep.violation(dict(kind='failing-input', input=f, broken=broken))
